@@ -70,51 +70,7 @@ def run_shard(shard, tier, seed):
     return acc
 
 
-# family intarg: fluents indexed by a bounded integer, written / read through ARITHMETIC argument
-# expressions of integer action parameters (the ground fluent only appears after simplification)
-def _intarg_specs():
-    I = lambda k: ("i", k)
-    P = lambda n: ("p", n)
-    wargs = [("i+1", ("+", P("i"), I(1))), ("2-i", ("-", I(2), P("i"))), ("i*2", ("*", P("i"), I(2)))]
-    rargs = [("j", P("j")), ("2-j", ("-", I(2), P("j")))]
-    out = []
-    for wn, wa in wargs:
-        for tgt in ("cell", "cnt"):
-            for rn, ra in rargs:
-                for second in ("read-pre", "write", "read-value"):
-                    wf, rf = ("f", tgt, wa), ("f", tgt, ra)
-                    if tgt == "cell":
-                        weff = ("assign", wf, ("b", True), None, ())
-                        rpre = rf
-                        weff2 = ("assign", rf, ("b", False), None, ())
-                        veff = ("assign", ("f", "b"), rf, None, ())
-                    else:
-                        weff = ("inc", wf, I(1), None, ())
-                        rpre = ("le", I(1), rf)
-                        weff2 = ("assign", rf, I(2), None, ())
-                        veff = ("assign", ("f", "n"), rf, None, ())
-                    if second == "read-pre":
-                        a2 = {"name": "snd", "params": (("j", ("int", 0, 2)),), "pre": (rpre,), "eff": (("assign", ("f", "b"), ("b", True), None, ()),)}
-                    elif second == "write":
-                        a2 = {"name": "snd", "params": (("j", ("int", 0, 2)),), "pre": (), "eff": (weff2,)}
-                    else:
-                        a2 = {"name": "snd", "params": (("j", ("int", 0, 2)),), "pre": (), "eff": (veff,)}
-                    ps = {
-                        "name": "intarg", "types": (("T", None),), "objects": (("o1", "T"),),
-                        "fluents": (
-                            ("b", ("bool",), (), ("b", False)),
-                            ("n", ("int", 0, 3), (), ("i", 0)),
-                            ("cell", ("bool",), (("k", ("int", 0, 2)),), ("b", False)),
-                            ("cnt", ("int", 0, 3), (("k", ("int", 0, 2)),), ("i", 0)),
-                        ),
-                        "actions": ({"name": "fst", "params": (("i", ("int", 0, 1)),), "pre": (), "eff": (weff,)}, a2),
-                        "goals": (), "ifuns": (), "init": (), "metric": None, "traj": (),
-                    }
-                    out.append(("intarg:%s(%s)/%s(%s)" % (tgt, wn, second, rn), ps))
-    return out
-
-
-INTARG = _intarg_specs()
+from mc.gen.uprob import INTARG  # family intarg (integer-indexed fluents), shared with C01/C02/compilers
 
 
 def check_intarg(i, k, acc):
